@@ -185,6 +185,31 @@ pub fn run(ctx: &Ctx) -> Report {
     let n = jobs.len();
     let st = explore(&ctx.pool, jobs, j);
     rep.part("library client under schedule search and single faults", st, serde_json::json!({"base_jobs": n}));
+    // short counts: what is reported must be what was transferred
+    {
+        let w = Worker::new(43, &ctx.pool.bins);
+        let mut errs = vec![];
+        let mut jobs = vec![];
+        for d in drivers() {
+            for bn in ["4", "max"] {
+                for upd in ["chan", "rec"] {
+                    let (_, tree, _) = trees(4).into_iter().nth(1).unwrap();
+                    let mut s = Scenario::new(&format!("api-short-{}-B{}-{}", d, bn, upd), tree, &["copy", d, "2", bn, upd, "dst", "src"]);
+                    s.prog = Prog::ApiProbe;
+                    jobs.extend(c05::clamp_jobs(&w, &s, &[], &|req| (1..req).collect(), false, &mut errs));
+                    for c in [1u64, 3] {
+                        let mut sp = RunSpec::base(Policy::P0);
+                        sp.step_limit = c05::STEP_LIMIT;
+                        sp.faults.push(Fault { call: "DATA".into(), thread: None, nth: None, path_contains: None, action: Action::Clamp(c) });
+                        jobs.push((Arc::new(s.clone()), sp, 0));
+                    }
+                }
+            }
+        }
+        let st = explore(&ctx.pool, jobs, j);
+        rep.part("every legal short count at every data-moving call, and small-kernel runs", st, serde_json::json!({}));
+        rep.machinery_errors.extend(errs);
+    }
     rep.assumptions = vec!["updates are ordered against data-moving calls through marker calls emitted by the client at delivery time (the trace is a total order)".into()];
     rep
 }
